@@ -730,6 +730,9 @@ def _dec_helper(env, call):
             t = norm(a)
             sub.copies[p_] = env.copies.get(t, t)
     terms = _dec_block(sub, callee.body)
+    for p_, a in zip(ps, call.args):
+        for v in _names(a):
+            env.flows.setdefault(v, set()).add(p_)  # the argument flows into the helper's parameter
     env.flows.update({k: env.flows.get(k, set()) | v for k, v in sub.flows.items()})
     env.ctor_args.extend(sub.ctor_args)
     env.endians |= sub.endians
